@@ -1,6 +1,7 @@
 package storesim
 
 import (
+	"bytes"
 	"crypto/sha256"
 	"encoding/hex"
 	"fmt"
@@ -50,7 +51,8 @@ type runner struct {
 	errFired   bool
 	startedAt  time.Time
 	asyncs     map[string]*AsyncReq
-	asyncFracs map[string][]string
+	asyncBase  map[string]int             // number of bulks submitted before the asynchronous search was started
+	asyncFracs map[string]map[string]bool // fractions that existed when it was started
 }
 
 func (r *runner) logf(format string, a ...any) {
@@ -104,8 +106,8 @@ func Run(t *testing.T, c *Case, done func(*Result)) {
 	}
 	simos.Install(w)
 	r := &runner{c: c, w: w, res: res, bulks: map[int]*bulkState{}, issued: map[model.ID]*model.Doc{},
-		fracOf: map[model.ID]string{}, fracSeen: map[string]bool{}, gone: map[string]bool{}, forms: map[string]string{},
-		states: map[string]bool{}, asyncs: map[string]*AsyncReq{}, asyncFracs: map[string][]string{}}
+		asyncBase: map[string]int{}, asyncFracs: map[string]map[string]bool{}, fracOf: map[model.ID]string{}, fracSeen: map[string]bool{}, gone: map[string]bool{}, forms: map[string]string{},
+		states: map[string]bool{}, asyncs: map[string]*AsyncReq{}}
 	cfg := verifsim.Config{
 		Seed: c.Seed, PSync: k.PSync, PStmt: k.PStmt, StepCost: time.Duration(k.StepCostNs), Schedule: c.Schedule,
 		MaxSteps: c.MaxSteps,
@@ -483,6 +485,16 @@ func (r *runner) tamper(how string) {
 		r.w.Tamper(p, []byte{})
 	case "stale":
 		r.w.Tamper(p, []byte(`{"seq-db-00000000000000000000000000":{"name":"seq-db-00000000000000000000000000","ver":"1","docs_total":5,"docs_on_disk":100,"docs_raw":200,"meta_on_disk":0,"index_on_disk":100,"const_regular_block_size":16384,"const_ids_per_block":4096,"const_lid_block_cap":65536,"from":1,"to":2,"creation_time":3,"sealing_time":4}}`))
+	case "moved":
+		// the data directory was moved (restored from a copy, mounted elsewhere) with its cache file:
+		// every cached entry still carries the path of the old location
+		if data := r.w.Peek(p); data != nil {
+			moved := bytes.ReplaceAll(data, []byte(`"`+r.st.Node.Dir+`/`), []byte(`"/sim/elsewhere/`))
+			if !bytes.Equal(moved, data) {
+				r.w.Tamper(p, moved)
+				r.s.Probe("tamper_moved_entries")
+			}
+		}
 	}
 	r.s.Probe("tamper_" + how)
 }
@@ -660,6 +672,12 @@ func (r *runner) checkStableFractions(s *Search, res *simenv.SearchRes, before, 
 	still := map[string]bool{}
 	for _, f := range after {
 		still[f.Name] = true
+	}
+	for _, f := range before {
+		if !still[f.Name] {
+			r.s.Probe("fraction_retired_during_search")
+			break
+		}
 	}
 	listed := map[model.ID]bool{}
 	for _, h := range res.Hits {
